@@ -158,6 +158,22 @@ def coq_build(timeout=2400):
 THM_RE = re.compile(r"^\s*(?:Theorem|Lemma|Corollary)\s+([A-Za-z0-9_']+)", re.M)
 
 def check_props(prop):
+    """Compile the property's theorem files (theories/Props/<name>.v, default [<prop>]; a property whose
+    whole-build part lives in the integrated pipeline model also has <prop>P.v) and merge the results."""
+    names = PROPS.get(prop, {}).get("props_files", [prop])
+    total = dict(ok=True, theorems=[], discharged=0, obligations=0, axioms={}, log="", missing_pa=[])
+    for nm in names:
+        r = check_props_file(nm)
+        total["ok"] = total["ok"] and r["ok"]
+        total["theorems"] += r["theorems"]
+        total["obligations"] += r["obligations"]
+        total["axioms"].update(r["axioms"])
+        total["missing_pa"] += r["missing_pa"]
+        total["log"] += r["log"][-2500:] + "\n"
+    total["discharged"] = total["obligations"] if total["ok"] else 0
+    return total
+
+def check_props_file(prop):
     """Compile theories/Props/<prop>.v (property theorems only) and read the Print Assumptions output."""
     src = os.path.join(TH, "Props", prop + ".v")
     res = dict(ok=False, theorems=[], discharged=0, obligations=0, axioms={}, log="", missing_pa=[])
@@ -436,7 +452,7 @@ def run_check(prop, tier, seed):
     # ---- evidence
     cov = dict(
         obligations=pr["obligations"], discharged=pr["discharged"],
-        checker_cmd="make -C /verif/coq -k -j%d && coqc -Q theories KV theories/Props/%s.v (Print Assumptions under every theorem)" % (NCPU, prop),
+        checker_cmd="make -C /verif/coq -k -j%d && coqc -Q theories KV theories/Props/{%s}.v (Print Assumptions under every theorem)" % (NCPU, ",".join(PROPS.get(prop, {}).get("props_files", [prop]))),
         trusted_base=trusted_base(prop, pr),
         theorems=pr["theorems"],
         refuted=[t for t in pr["theorems"] if t.endswith("_refuted") or "_refuted_" in t],
@@ -492,7 +508,8 @@ def coqchk(prop):
         stamp = os.path.join(BUILD, "coqchk-%s-%s.json" % (prop, h.hexdigest()[:16]))
         if os.path.exists(stamp):
             return json.load(open(stamp))
-        rc, out, dt = sh(["coqchk", "-silent", "-o", "-Q", "theories", "KV", "KV.Props." + prop], cwd=COQ, timeout=3600)
+        mods = ["KV.Props." + nm for nm in PROPS.get(prop, {}).get("props_files", [prop])]
+        rc, out, dt = sh(["coqchk", "-silent", "-o", "-Q", "theories", "KV"] + mods, cwd=COQ, timeout=3600)
         res = dict(rc=rc, wall_s=round(dt, 1), tail=out[-3000:])
         with open(stamp, "w") as f:
             json.dump(res, f)
